@@ -108,7 +108,7 @@ CLAIMED = {
     "C17": (
         "Coq proof about the value-pool function of the validation model + correspondence on random pools x inputs x parent statuses",
         "Props/C17.v: for a non-forbidden segment and pairwise different qualifiers the offered values are exactly the admissible entries in pool order (single-entry pools offer their entry); the judgement of the "
-        "input by the offered values (accepted / flagged and empty with hint / empty); nothing offered or forbidden segment -> forbidden. validate_data_element_valuepool is additionally executed by the translator on every pool of 0-3 entries x inputs x segment statuses and the 1071 rows (status, flag, hint text, offered values) proved equal to the model (C17_value_pool_validation_is_the_regenerated_table).",
+        "input by the offered values (accepted / flagged and empty with hint / empty); nothing offered or forbidden segment -> forbidden. validate_data_element_valuepool is additionally executed by the translator on every pool of 0-3 entries x inputs x segment statuses and the 1071 rows (status, flag, hint text, offered values) proved equal to the model (C17_value_pool_validation_is_the_regenerated_table). C17_judgement_ignores_the_meanings: two pools with the same qualifiers and expressions entry by entry, whatever their descriptions (an empty one included), offer the same qualifiers in the same order and judge every input alike (status, flag, hint; errors alike).",
         "Trusted: as C13; dict semantics of possible_values modelled as an insertion-ordered association list.",
         "DESIGN.md section 5 C17",
     ),
